@@ -251,7 +251,12 @@ func emitSwitch(name, file, fn, ownDir string) {
 				fmt.Println(",")
 			}
 			first = false
-			fmt.Printf("  ⟨%s, %s, %s, %s, %d⟩", ex.LeanStr(resolveConst(f, imps, e, ownDir)), ex.LeanStr(key), ex.LeanStr(src), ex.LeanStr(m.CMD()), m.MaxLength())
+			cmd := resolveConst(f, imps, e, ownDir)
+			var bs []string
+			for _, b := range []byte(cmd) {
+				bs = append(bs, strconv.Itoa(int(b)))
+			}
+			fmt.Printf("  ⟨%s, [%s], %s, %s, %s, %d⟩", ex.LeanStr(cmd), strings.Join(bs, ", "), ex.LeanStr(key), ex.LeanStr(src), ex.LeanStr(m.CMD()), m.MaxLength())
 		}
 	}
 	fmt.Printf("]\n")
@@ -291,7 +296,7 @@ func checkSteps(name, fn string) {
 
 func main() {
 	ex.Header("C35")
-	fmt.Println("structure Entry where\n  caseCmd : String   -- value of the case constant\n  type : String      -- package.Type of the constructed message\n  ctor : String      -- source text of the construction\n  typeCmd : String   -- CMD() of the constructed message\n  max : Nat          -- MaxLength() of the constructed message\nderiving DecidableEq, Repr\n")
+	fmt.Println("structure Entry where\n  caseCmd : String   -- value of the case constant\n  caseBytes : List UInt8  -- the same, as bytes\n  type : String      -- package.Type of the constructed message\n  ctor : String      -- source text of the construction\n  typeCmd : String   -- CMD() of the constructed message\n  max : Nat          -- MaxLength() of the constructed message\nderiving DecidableEq, Repr\n")
 	ex.DefNat("headerSize", p2p.HeaderSize)
 	ex.DefNat("cmdSize", p2p.CMDSize)
 	ex.DefNat("cmdOffset", p2p.CMDOffset)
